@@ -761,6 +761,9 @@ type excludeFilter struct {
 }
 
 func (t excludeFilter) Filter(set *Set) *Set {
+	if t.excludeSet == nil {
+		return set
+	}
 	return set.RecursiveDifference(t.excludeSet)
 }
 
